@@ -116,13 +116,14 @@ fn configs(prop: &str, thorough: bool) -> Vec<(Cfg, Option<usize>)> {
             let lists = lists_of(&c07_kinds(thorough));
             {
                 // whitelist: every admin list incl. the empty one, frozen and not
+                // the proxy's own address is a caller class too (the sender of a nested relay): an admin only where listed
                 let mut c = Cfg::base("C07/whitelist/admin-sets", "C07", Kind::Whitelist);
-                c.actors = vec!["A1", "A2", "X"];
+                c.actors = vec!["A1", "A2", "X", "proxy"];
                 c.init_admins = vec![0, 1];
                 c.admin_callers = vec![0, 1, 2];
-                c.admin_lists = vec![vec![0], vec![0, 1], vec![1], vec![]];
+                c.admin_lists = vec![vec![0], vec![0, 1], vec![1], vec![], vec![0, 3]];
                 c.freeze_callers = vec![0, 2];
-                c.exec_callers = vec![0, 1, 2];
+                c.exec_callers = vec![0, 1, 2, 3];
                 c.exec_lists = lists.clone();
                 out.push((c, None));
             }
@@ -153,7 +154,10 @@ fn configs(prop: &str, thorough: bool) -> Vec<(Cfg, Option<usize>)> {
                 // one subkey holding both an allowance and permissions: mixed lists can succeed
                 let mut c = Cfg::base("C07/subkeys/one-subkey-with-both", "C07", Kind::Subkeys);
                 c.hmax = H0 + 1;
+                c.actors = vec!["A1", "A2", "S1", "S2", "X", "proxy"];
                 c.init_admins = vec![A1];
+                c.admin_callers = vec![A1];
+                c.admin_lists = vec![vec![A1], vec![A1, 5]];
                 c.grant_callers = vec![A1, S1];
                 c.targets = vec![tg(S1, &[0, 1], Some(2))];
                 c.inc_amounts = vec![1, 2];
@@ -161,7 +165,7 @@ fn configs(prop: &str, thorough: bool) -> Vec<(Cfg, Option<usize>)> {
                 c.inc_exps = vec![ExpA::Unset, ExpA::T(T0 + DT)];
                 c.perm_callers = vec![A1, S1];
                 c.perm_targets = vec![(S1, if thorough { all16.clone() } else { vec![0, P_DELEGATE, P_WITHDRAW, 15] })];
-                c.exec_callers = vec![A1, S1, X];
+                c.exec_callers = vec![A1, S1, X, 5];
                 c.exec_lists = lists.clone();
                 out.push((c, None));
             }
@@ -284,12 +288,12 @@ fn configs(prop: &str, thorough: bool) -> Vec<(Cfg, Option<usize>)> {
             let msgs = c16_msgs(thorough);
             {
                 let mut c = Cfg::base("C16/whitelist/admin-sets", "C16", Kind::Whitelist);
-                c.actors = vec!["A1", "A2", "X"];
+                c.actors = vec!["A1", "A2", "X", "proxy"];
                 c.init_admins = vec![0, 1];
                 c.admin_callers = vec![0, 1];
-                c.admin_lists = vec![vec![0], vec![0, 1], vec![1], vec![], vec![2]];
+                c.admin_lists = vec![vec![0], vec![0, 1], vec![1], vec![], vec![2], vec![0, 3]];
                 c.freeze_callers = vec![0];
-                c.probe_senders = vec![0, 1, 2];
+                c.probe_senders = vec![0, 1, 2, 3];
                 c.probe_msgs = msgs.clone();
                 out.push((c, None));
             }
@@ -298,8 +302,9 @@ fn configs(prop: &str, thorough: bool) -> Vec<(Cfg, Option<usize>)> {
                 // zero-amount grants; the removed admin A2 keeps an allowance
                 let mut c = Cfg::base("C16/subkeys/allowances", "C16", Kind::Subkeys);
                 c.hmax = H0 + 2;
+                c.actors = vec!["A1", "A2", "S1", "S2", "X", "proxy"];
                 c.admin_callers = vec![A1];
-                c.admin_lists = vec![vec![A1], vec![A1, A2]];
+                c.admin_lists = vec![vec![A1], vec![A1, A2], vec![A1, 5]];
                 c.grant_callers = vec![A1];
                 c.targets = if thorough { vec![tg(S1, &[0, 1], Some(3)), tg(A2, &[0, 1], Some(1))] } else { vec![tg(S1, &[0, 1], Some(2)), tg(A2, &[0], Some(1))] };
                 c.inc_amounts = if thorough { vec![0, 1, 2, 3] } else { vec![0, 1, 2] };
@@ -314,7 +319,7 @@ fn configs(prop: &str, thorough: bool) -> Vec<(Cfg, Option<usize>)> {
                 }
                 c.exec_callers = vec![S1, A2];
                 c.exec_lists = vec![vec![send(&[(0, 1)])], vec![send(&[(1, 1)])], vec![send(&[(0, 1), (1, 1)])]];
-                c.probe_senders = vec![A1, A2, S1, S2, X];
+                c.probe_senders = vec![A1, A2, S1, S2, X, 5];
                 c.probe_msgs = msgs.clone();
                 out.push((c, None));
             }
@@ -334,7 +339,8 @@ fn configs(prop: &str, thorough: bool) -> Vec<(Cfg, Option<usize>)> {
                 c.perm_targets = if thorough { vec![(S2, all16.clone()), (A2, all16.clone())] } else { vec![(S2, all16.clone()), (A2, vec![0, 15])] };
                 c.exec_callers = vec![S2];
                 c.exec_lists = vec![vec![send(&[(0, 1)])]];
-                c.probe_senders = vec![A1, A2, S1, S2, X];
+                c.actors = vec!["A1", "A2", "S1", "S2", "X", "proxy"];
+                c.probe_senders = vec![A1, A2, S1, S2, X, 5];
                 c.probe_msgs = msgs.clone();
                 out.push((c, None));
             }
@@ -346,6 +352,10 @@ fn configs(prop: &str, thorough: bool) -> Vec<(Cfg, Option<usize>)> {
                 ("none/mutable", vec![], true),
                 ("A1/immutable", vec![0], false),
                 ("A1,A2/immutable", vec![0, 1], false),
+                // lists that are not in address order whichever way the addresses sort, and lists that repeat an address
+                ("A2,A1/immutable", vec![1, 0], false),
+                ("A1,A1/immutable", vec![0, 0], false),
+                ("X,A1,X/immutable", vec![3, 0, 3], false),
             ];
             // actors: A1 A2 S X
             for kind in [Kind::Whitelist, Kind::Subkeys] {
@@ -357,22 +367,21 @@ fn configs(prop: &str, thorough: bool) -> Vec<(Cfg, Option<usize>)> {
                     c.init_mutable = *mutable;
                     c.hmax = H0 + 1;
                     c.admin_callers = vec![0, 1, 2, 3];
-                    c.admin_lists = vec![vec![], vec![0], vec![1], vec![0, 1], vec![3], vec![0, 0]];
+                    c.admin_lists = vec![vec![], vec![0], vec![1], vec![0, 1], vec![1, 0], vec![3], vec![0, 0], vec![3, 0, 3]];
+                    c.migrate_probe = true;
                     c.freeze_callers = vec![0, 1, 2, 3];
                     c.grant_callers = vec![0, 1, 2, 3];
                     c.targets = if thorough { vec![tg(2, &[0, 1], Some(2)), tg(1, &[0], Some(1))] } else { vec![tg(2, &[0], Some(2)), tg(1, &[0], Some(1))] };
-                    c.inc_amounts = if thorough { vec![1, 2] } else { vec![1] };
+                    // zero-amount increases too: they can only (re-)date an allowance
+                    c.inc_amounts = if thorough { vec![0, 1, 2] } else { vec![0, 1] };
                     c.dec_amounts = vec![1];
-                    c.inc_exps = vec![ExpA::Unset, ExpA::H(H0 + 1)];
-                    c.dec_exps = vec![ExpA::Unset, ExpA::H(H0 + 2)];
-                    if thorough {
-                        c.hmax = H0 + 2;
-                    }
+                    c.inc_exps = vec![ExpA::Unset, ExpA::Never, ExpA::H(H0 + 1)];
+                    c.dec_exps = if thorough { vec![ExpA::Unset, ExpA::H(H0 + 2), ExpA::T(T0 + 2 * DT)] } else { vec![ExpA::Unset, ExpA::H(H0 + 2)] };
                     c.perm_callers = vec![0, 1, 2, 3];
                     // two holders of permissions: a grant held by one must not let it grant to the other
-                    c.perm_targets = vec![(2, if thorough { all16.clone() } else { vec![0, P_DELEGATE, P_WITHDRAW, 15] }), (1, vec![P_REDELEGATE])];
+                    c.perm_targets = vec![(2, if thorough { vec![0, 1, 2, 4, 8, 3, 12, 15] } else { vec![0, P_DELEGATE, P_WITHDRAW, 15] }), (1, vec![P_REDELEGATE])];
                     c.exec_callers = vec![0, 1, 2, 3];
-                    c.exec_lists = vec![vec![send(&[(0, 1)])], vec![M::Delegate], vec![M::WasmExec], vec![]];
+                    c.exec_lists = vec![vec![send(&[(0, 1)])], vec![send(&[])], vec![send(&[(0, 0)])], vec![M::Delegate], vec![M::WasmExec], vec![]];
                     out.push((c, None));
                 }
             }
